@@ -18,6 +18,7 @@ import (
 	hcm "github.com/envoyproxy/go-control-plane/envoy/extensions/filters/network/http_connection_manager/v3"
 	"google.golang.org/protobuf/proto"
 
+	"istio.io/istio/pilot/pkg/config/memory"
 	"istio.io/istio/pilot/pkg/model"
 	"istio.io/istio/pilot/pkg/networking/core"
 	"istio.io/istio/pilot/pkg/xds"
@@ -89,7 +90,33 @@ func buildEnv(w *world, perm *rand.Rand) *envH {
 		perm.Shuffle(len(reps), func(i, j int) { reps[i], reps[j] = reps[j], reps[i] })
 	}
 	f := vh.NewF()
-	cg := core.NewConfigGenTest(f, core.TestOptions{Configs: cfgs, Services: svcs, MeshConfig: w.Mesh, SkipRun: true})
+	// objects without creationTimestamp (synthesized ones) cannot go through Create, which stamps the wall clock
+	var dated, undated []config.Config
+	for _, c := range cfgs {
+		if c.CreationTimestamp.IsZero() {
+			undated = append(undated, c)
+		} else {
+			dated = append(dated, c)
+		}
+	}
+	cg := core.NewConfigGenTest(f, core.TestOptions{Configs: dated, Services: svcs, MeshConfig: w.Mesh, SkipRun: true})
+	for _, c := range undated {
+		if _, err := cg.Store().Create(c); err != nil {
+			f.Done()
+			vh.Abort("create %s/%s: %v", c.Namespace, c.Name, err)
+		}
+		// Update stores the object as given: no timestamp, resource version from the annotation
+		u := c.DeepCopy()
+		u.ResourceVersion = ""
+		if u.Annotations == nil {
+			u.Annotations = map[string]string{}
+		}
+		u.Annotations[memory.ResourceVersion] = c.ResourceVersion
+		if _, err := cg.Store().Update(u); err != nil {
+			f.Done()
+			vh.Abort("update %s/%s: %v", c.Namespace, c.Name, err)
+		}
+	}
 	env := cg.Env()
 	for _, rep := range reps {
 		if rep.ViaRegistry {
